@@ -135,6 +135,7 @@ def run(prog: Program, res: Result, tier: str) -> None:
                 f"{inst}: switch {zm}, swap is a non-symmetry: {ok}",
                 instance=inst)
     check_idmap(prog, res, fi)
+    check_falsy_and_state(prog, res, fi)
     res.exhaustive = True
     res.trusted += ["literal permutation tables (checked by C04)",
                     "RDKit presents `_chiralPermutation` relative to "
@@ -235,3 +236,73 @@ def check_idmap(prog: Program, res: Result, fi) -> None:
     else:
         res.bad("R-IDMAP", "id_atom_map constructions", fi.loc(),
                 f"{inst}: {a} vs {b}", instance=inst)
+
+
+def check_falsy_and_state(prog: Program, res: Result, fi) -> None:
+    res.rule("R-FALSY-ID", "atom identifiers (0 is a legal identifier and "
+             "RDKit index) are never tested by truthiness: presence tests on "
+             "descriptor atoms are `is None` tests")
+    res.rule("R-CONVERTER-STATELESS", "the converter object carries "
+             "configuration only: no method stores per-molecule state on "
+             "self, so the import of a molecule does not depend on what was "
+             "imported before")
+    n = 0
+    for node in ast.walk(fi.node):
+        if isinstance(node, ast.Call) and call_name(node) in ("any", "all") \
+                and len(node.args) == 1:
+            from ..pe import resolve
+            a = resolve(node.args[0], fi.node)
+            n += 1
+            inst = f"smg_from_rdmol: {norm(node, 70)}"
+            if isinstance(a, (ast.GeneratorExp, ast.ListComp)):
+                elt = a.elt
+                # element must be a comparison / call, not a bare identifier
+                if isinstance(elt, (ast.Name, ast.Subscript, ast.Attribute)) \
+                        and "atom" in norm(a.generators[0].iter):
+                    res.bad("R-FALSY-ID", inst, fi.loc(node),
+                            f"{inst}: identifiers are tested by truthiness; "
+                            "atom 0 counts as absent")
+                else:
+                    res.ok("R-FALSY-ID", inst, fi.loc(node))
+            elif "atoms" in norm(a) or "neighbors" in norm(a):
+                res.bad("R-FALSY-ID", inst, fi.loc(node),
+                        f"{inst}: identifiers are tested by truthiness "
+                        "(`any(...)` over atom ids); atom 0 counts as absent, "
+                        "so a descriptor whose only substituent is atom 0 is "
+                        "dropped and E / Z import to equal graphs")
+            else:
+                res.ok("R-FALSY-ID", inst, fi.loc(node))
+    res.need("R-FALSY-ID", n, 3, "any()/all() tests in the importer")
+    ci = prog.cls("RDMol2StereoMolGraph")
+    for name, m in ci.methods.items():
+        selfn = m.params()[0] if m.params() else "self"
+        stores = []
+        for node in ast.walk(m.node):
+            tgts = []
+            if isinstance(node, ast.Assign):
+                tgts = node.targets
+            elif isinstance(node, (ast.AugAssign, ast.AnnAssign)):
+                tgts = [node.target]
+            for t in tgts:
+                b = t
+                while isinstance(b, ast.Subscript):
+                    b = b.value
+                if isinstance(b, ast.Attribute) and norm(b.value) == selfn:
+                    stores.append(node)
+            if isinstance(node, ast.Call) and isinstance(
+                    node.func, ast.Attribute) and node.func.attr in (
+                    "append", "update", "add", "setdefault", "clear", "pop",
+                    "extend") and isinstance(
+                    node.func.value, ast.Attribute) and norm(
+                    node.func.value.value) == selfn:
+                stores.append(node)
+        inst = f"RDMol2StereoMolGraph.{name} keeps no state on self"
+        if stores:
+            res.bad("R-CONVERTER-STATELESS",
+                    f"RDMol2StereoMolGraph.{name}: {norm(stores[0], 70)}",
+                    m.loc(stores[0]), f"{inst}: `{norm(stores[0], 80)}` "
+                    "stores per-molecule data on the converter; a reused "
+                    "converter sees the previous molecule's data (wrong ring "
+                    "membership after renumbering)", instance=inst)
+        else:
+            res.ok("R-CONVERTER-STATELESS", inst, m.loc())
